@@ -99,16 +99,26 @@ func (r *SimReader) FiredInside() bool { return r.ended && r.Limit < len(r.Data)
 
 // plainSim implements verifhook.Simulator for calls that start no goroutine: seams and logical step
 // budget only.
+// needsScheduler is thrown by a plainSim in noGoroutines mode when the code under test is about to start a goroutine: the caller
+// then repeats the case inside the scheduler (a goroutine that never finishes must show as a deadlock, not as a real hang).
+type needsScheduler struct{ site string }
+
 type plainSim struct {
-	paused     bool
-	ticks, max int64
-	mapSeed    uint64
-	hasMapSeed bool
-	epoch      int64
+	noGoroutines bool
+	paused       bool
+	ticks, max   int64
+	mapSeed      uint64
+	hasMapSeed   bool
+	epoch        int64
 }
 
-func (p *plainSim) Yield(site, kind string)      {}
-func (p *plainSim) Spawn(site string) int        { return 0 }
+func (p *plainSim) Yield(site, kind string) {}
+func (p *plainSim) Spawn(site string) int {
+	if p.noGoroutines {
+		panic(needsScheduler{site})
+	}
+	return 0
+}
 func (p *plainSim) GoStart(id int)               {}
 func (p *plainSim) GoEnd()                       {}
 func (p *plainSim) Panicked(v any, stack []byte) {}
